@@ -71,6 +71,34 @@ func main() {
 						nRange++
 						fmt.Printf("range  %s\n", p.Fset.Position(n.Pos()))
 					}
+				case *ast.SelectorExpr:
+					// method value d.DialContext / d.Dial (the call form is
+					// handled below and does not descend here)
+					sl, ok := info.Selections[n]
+					if !ok || sl.Kind() != types.MethodVal {
+						return true
+					}
+					recv := sl.Recv()
+					isPtr := false
+					if ptr, ok := recv.(*types.Pointer); ok {
+						recv, isPtr = ptr.Elem(), true
+					}
+					named, ok := recv.(*types.Named)
+					if !ok || named.Obj().Pkg() == nil || named.Obj().Pkg().Path() != "net" || named.Obj().Name() != "Dialer" {
+						return true
+					}
+					if n.Sel.Name != "DialContext" && n.Sel.Name != "Dial" {
+						return true
+					}
+					var recvExpr ast.Expr = n.X
+					if !isPtr {
+						recvExpr = &ast.UnaryExpr{Op: token.AND, X: recvExpr}
+					}
+					c.Replace(&ast.CallExpr{Fun: &ast.SelectorExpr{X: ast.NewIdent("verifrt"), Sel: ast.NewIdent(n.Sel.Name + "Func")}, Args: []ast.Expr{recvExpr}})
+					changed = true
+					nDial++
+					fmt.Printf("dialfn %s\n", p.Fset.Position(n.Pos()))
+					return false
 				case *ast.CallExpr:
 					sel, ok := n.Fun.(*ast.SelectorExpr)
 					if !ok {
